@@ -14,7 +14,8 @@ prop(
     level_note="Trusted: SimNet, the PRF generators, the qlog-based packet monitor (C20 checks qlog is observational). Liveness is decided only as bounded progress in virtual time. "
     "Runs are reproducible up to the library's own entropy (CIDs, TLS randoms).",
     design_ref="DESIGN.md §3 C02",
-    legs=[dict(name="sim", crate="l2", sub="c02", shards={Q: 16, T: 16}, budget={Q: 16, T: 120}, timeout={Q: 900, T: 7200})],
+    legs=[dict(name="sim", crate="l2", sub="c02", shards={Q: 16, T: 16}, budget={Q: 16, T: 120}, timeout={Q: 900, T: 7200}),
+          dict(name="asan", kind="asan", crate="l2", sub="c02", tiers=(T,), budget={T: 8}, timeout=5400, mandatory=False)],
     floors={Q: {"bounded_scenarios": 60, "bounded_all_transfers_completed": 50, "unbounded_class_quiescent": 8, "stream_bytes_validated": 5_000_000,
                 "faults_dropped": 500, "faults_duplicated": 100, "faults_bitflipped": 50, "faults_truncated": 50, "faults_reordered": 100, "qlog_packet_received": 20000}},
     assumptions=["the simulated network replaces qudp/real sockets", "virtual time (tokio paused clock) drives every timer of the stack"],
